@@ -1,6 +1,6 @@
 (* C14 — property theorems only.  Each is closed by [exact]; see C14/Proofs*.v. *)
 From Coq Require Import List ZArith NArith.
-From VV Require Import C14.Model C14.Proofs C14.Proofs2 C14.Proofs3.
+From VV Require Import C14.Model C14.Proofs C14.Proofs2 C14.Proofs3 C14.Proofs4.
 Import ListNotations.
 Open Scope N_scope.
 
@@ -82,3 +82,31 @@ Theorem C14_crash_during_write_is_damage :
   damaged (apply_hop (apply_hop fs (HWrite n b)) (HCut n j) n).
 Proof. exact crash_during_write_damaged. Qed.
 Print Assumptions C14_crash_during_write_is_damage.
+
+(* WRITE, CRASH, READ (the property's first sentence).  write_env writes an environment
+   (keys = task names, entries with a status) into an empty output directory with a
+   pickler [penc] that the decoder reads back; crashes then cut files at arbitrary bytes
+   or delete them; read_env is called for [names].  It does not raise; everything it
+   reports is an entry of the written environment, unchanged, that was DONE and had an
+   output directory; every such entry whose own file root/name/fname was not touched
+   (and that no other entry's output_dir points at) is reported. *)
+Theorem C14_write_crash_read :
+  forall (penc : value -> list N) (root fname : list N) (caught : exn -> bool),
+  caught XEOFError = true -> caught XUnpicklingError = true -> caught XOSError = true ->
+  forall items faults names,
+  (forall k e, In (k, e) items -> dec (penc (mk_env [(k, e)])) = Got (mk_env [(k, e)], [])) ->
+  (forall k e, In (k, e) items -> (exists s, k = VStr s) /\ wf_entry e) ->
+  NoDup (map fst items) ->
+  Forall is_fault faults ->
+  let fs := fold_left apply_hop (wops penc fname items ++ faults) fs0 in
+  exists r, read_env caught (fun n => fs (task_file root fname n)) names = Ret r /\
+    (forall k e, In (k, e) r ->
+       In (k, e) items /\ done e /\ exists d, output_dir e = Some (VStr d)) /\
+    (forall s e, In (VStr s, e) items -> done e -> In s names ->
+       output_dir e = Some (VStr (join_path root s)) ->
+       (forall k' e' d', In (k', e') items -> output_dir e' = Some (VStr d') ->
+                         join_path d' fname = task_file root fname s -> k' = VStr s) ->
+       (forall o, In o faults -> target o <> task_file root fname s) ->
+       In (VStr s, e) r).
+Proof. exact write_crash_read. Qed.
+Print Assumptions C14_write_crash_read.
